@@ -86,5 +86,8 @@ impl Strategy for Dfs {
         &mut self.stats
     }
 
-    fn reset(&mut self) {}
+    fn reset(&mut self) {
+        // stats are reported per run and summed by the caller
+        self.stats = McStats::default();
+    }
 }
